@@ -1,6 +1,6 @@
 (* Model.v — the executable entry points of the implementation model: the fixed user-function
    library (implemented a second time in Go by the runner) and one-call wrappers. *)
-From JP Require Export Json Tree Eval Peg Grammar Text Actions WF Spec AccDefs CallDefs.
+From JP Require Export Json Tree Eval Peg Grammar Text Actions WF Spec AccDefs CallDefs ErrSpec.
 Open Scope string_scope.
 
 (* ---------- the user-function library of the harness ---------- *)
@@ -50,6 +50,10 @@ Definition eval_doc (regex_match : string -> string -> bool) (t : node) (doc : v
 (* the specification (Spec.v) with the same function library: the independent oracle of C01 *)
 Definition spec_doc (regex_match : string -> string -> bool) (t : node) (doc : value) : list res :=
   spec_results lib_ffun lib_afun regex_match t doc.
+
+(* the error specification (ErrSpec.v): what a failing retrieval must report *)
+Definition spec_err (regex_match : string -> string -> bool) (t : node) (doc : value) : option rerr :=
+  spec_error lib_ffun lib_afun regex_match t doc.
 
 Definition spec_calls (regex_match : string -> string -> bool) (t : node) (doc : value) : list call :=
   sc lib_ffun lib_afun regex_match t doc (Some [], doc).
